@@ -225,8 +225,8 @@ theorem remove_tests_as_modelled :
     (safe_apply since the fix commit - `logonHook`), clean_up (recovery point of the sweep -
     `cleanupObject`), heart_beat (`hbLoop`), the master's error_handler (errors re-enter error_handler -
     `callMasterHandler`), process_input x2 of process_user_command (`inputStage`), net_dead (safe_apply - `netDeadHook`), the
-    input_to callback (`inputToCommand`), write_prompt (`promptStage`), both call_out forms (per-entry recovery point - `sweepCallOuts`).  Not modelled
-    (see not_covered): preload/epilog (before backend()), receive_snoop, the three telnet callbacks (safe_apply, C13),
+    input_to callback (`inputToCommand`), write_prompt (`promptStage`), both call_out forms (per-entry recovery point - `sweepCallOuts`).  receive_snoop (safe_apply - `snoopHook`).  Not modelled
+    (see not_covered): the three telnet callbacks (safe_apply, C13),
     process_input of the ASCII port in get_user_data, address-server
     callbacks, notify_fail closure.  A NEW site - protected or not - changes this list and breaks the obligation. -/
 theorem apply_sites_as_modelled :
@@ -239,7 +239,7 @@ theorem apply_sites_as_modelled :
        "backend.c:preload_objects:apply_master_ob:APPLY_PRELOAD",
        "error_context.c:mudlib_error_handler:apply_master_ob:APPLY_ERROR_HANDLER",
        "error_context.c:mudlib_error_handler:apply_master_ob:APPLY_ERROR_HANDLER",
-       "comm.c:receive_snoop:apply:APPLY_RECEIVE_SNOOP",
+       "comm.c:receive_snoop:safe_apply:APPLY_RECEIVE_SNOOP",
        "comm.c:copy_chars:safe_apply:APPLY_TERMINAL_TYPE",
        "comm.c:copy_chars:safe_apply:APPLY_WINDOW_SIZE",
        "comm.c:copy_chars:safe_apply:APPLY_TELNET_SUBOPTION",
@@ -315,7 +315,8 @@ theorem error_handler_stmts_as_modelled :
 
 /-- every source shape of the repaired code that the model mirrors is present (all_users guard, re-validation through
     the object, recovery point before the start-up steps, load-average clamp, connect() under its own recovery point,
-    pending events cleared when a record is freed, logon() under its own recovery point) -/
-theorem guards_present : NV.Gen.C09.guardsPresent = [1, 1, 1, 1, 1, 1, 1] := by decide
+    pending events cleared when a record is freed, logon() under its own recovery point, the record re-validated after the CR LF echo in copy_chars(), the snoop
+    forwarding of get_user_data() behind the CMD_IN_BUF update) -/
+theorem guards_present : NV.Gen.C09.guardsPresent = [1, 1, 1, 1, 1, 1, 1, 1, 1] := by decide
 
 end NV.C09
